@@ -45,6 +45,15 @@ def inconsistencies(a):
                         bad.append(("atom_type_data", "atom type id %d in use but %s has %d entries" % (mx, name, len(getattr(a, name)))))
                 if len(a.pair_coeffs) > 0 and mx >= len(a.pair_coeffs):
                     bad.append(("pair_table_covers_types", "atom type id %d in use but pair_coeffs has %d entries" % (mx, len(a.pair_coeffs))))
+                if mx < len(a.atom_type_elements):
+                    # the public per-atom accessor is derived data: it has to say what the type arrays say, whenever it is asked
+                    tab = [str(e) for e in a.atom_type_elements]
+                    want = [tab[int(t)] for t in at]
+                    got = [str(e) for e in a.elements]
+                    if got != want:
+                        k = [i for i in range(min(len(got), len(want))) if got[i] != want[i]][:3]
+                        bad.append(("elements_accessor", "Atoms.elements says %s for atoms %s whose atom types say %s (%d vs %d entries)" %
+                                    ([got[i] for i in k], k, [want[i] for i in k], len(got), len(want))))
         for kind, arrname, w in KINDS:
             arr = np.asarray(getattr(a, arrname))
             types = np.asarray(getattr(a, "%s_types" % kind))
